@@ -20,6 +20,8 @@ func Run(o *drv.Out) {
 	if o.Search {
 		nEv, nLed = nEv*2, nLed*2
 	}
+	// corpus first: the scenario in which the oracle found expired evidence accepted (repaired in c09f5c7)
+	runCorpusExpired(o)
 	for i := 0; i < nEv; i++ {
 		runEvidenceCase(o, i, i%3 == 2)
 	}
@@ -102,9 +104,10 @@ func runEvidenceCase(o *drv.Out, ci int, wired bool) {
 		}
 		return ms, pw
 	}
-	rhs := []uint64{1 + uint64(r.Intn(2)), ec.curRoot - ec.unstaking - 1, ec.curRoot - ec.unstaking, ec.curRoot - 1}
-	if rhs[1] <= rhs[0] {
-		rhs[1] = rhs[0] + 1
+	// root heights of the evidence: one expired (long ago, or by one), the boundary, a recent one, the current one
+	rhs := []uint64{1 + uint64(r.Intn(2)), ec.curRoot - ec.unstaking, ec.curRoot - 1, ec.curRoot}
+	if r.Intn(2) == 0 {
+		rhs[0] = ec.curRoot - ec.unstaking - 1
 	}
 	ms1, pw1 := members()
 	for i, rh := range rhs {
@@ -125,20 +128,23 @@ func runEvidenceCase(o *drv.Out, ci int, wired bool) {
 			ec.c.committees[rh] = newCommittee(ms, pw)
 		}
 	}
-	// the expiry bound the controller answers (table mode): the property's own bound, with a few deviations
+	// the expiry bound the controller answers when asked as of the replica's root height (table mode): the
+	// property's own bound, with a few deviations
 	if !wired {
+		switch r.Intn(8) {
+		case 0:
+			ec.c.mins[ec.curRoot] = 0
+		case 1:
+			ec.c.mins[ec.curRoot] = rhs[3]
+		case 2:
+			ec.c.mins[ec.curRoot] = rhs[3] + 1
+		case 3: // the controller fails
+		default:
+			ec.c.mins[ec.curRoot] = ec.curRoot - ec.unstaking
+		}
+		// what it would answer for other heights must not matter
 		for _, rh := range rhs {
-			switch r.Intn(6) {
-			case 0:
-				ec.c.mins[rh] = 0
-			case 1:
-				ec.c.mins[rh] = rh
-			case 2:
-				ec.c.mins[rh] = rh + 1
-			case 3: // the controller fails
-			default:
-				ec.c.mins[rh] = ec.curRoot - ec.unstaking
-			}
+			ec.c.mins[rh] = uint64(r.Intn(int(ec.curRoot)))
 		}
 	}
 	// already-slashed (validator, root height) pairs on the root chain: mostly Byzantine members (so that the
@@ -167,13 +173,12 @@ func runEvidenceCase(o *drv.Out, ci int, wired bool) {
 	ec.b = b
 
 	if wired {
-		// ask the real wiring once per root height so that the env line carries its answers
+		// ask the real wiring for every height a replica could ask at, so that the env line carries its answers
+		ec.c.LoadMinimumEvidenceHeight(0, ec.curRoot)
 		for _, rh := range rhs {
 			ec.c.LoadMinimumEvidenceHeight(0, rh)
-			m, _ := root.minEvidenceAt(rh)
-			ec.op(fmt.Sprintf("wiredmin cur=%d ub=%d h=%d", ec.curRoot, ec.unstaking, rh), fmt.Sprint(m))
 		}
-		for _, h := range []uint64{0, ec.curRoot, ec.curRoot + 5, 1, 2} {
+		for _, h := range append([]uint64{0, ec.curRoot, ec.curRoot + 5, 1, 2}, rhs...) {
 			m, _ := root.minEvidenceAt(h)
 			ec.op(fmt.Sprintf("wiredmin cur=%d ub=%d h=%d", ec.curRoot, ec.unstaking, h), fmt.Sprint(m))
 		}
@@ -181,7 +186,7 @@ func runEvidenceCase(o *drv.Out, ci int, wired bool) {
 	} else {
 		o.Count("mode:table")
 	}
-	ec.op(ec.c.envLine(net, chain), "ok")
+	ec.op(ec.c.envLine(net, chain, ec.b.RootHeight), "ok")
 
 	// ---- what gets signed: per (root height, height, round, phase) up to two competing payloads
 	type slot struct {
@@ -642,7 +647,7 @@ func runEvidenceCase(o *drv.Out, ci int, wired bool) {
 		})
 		ec.op(op, res)
 		o.Count("validate:" + kind + ":" + strings.SplitN(res, "/", 2)[0])
-		o.Nontrivial(op + "|" + ec.c.envLine(net, chain))
+		o.Nontrivial(op + "|" + ec.c.envLine(net, chain, ec.b.RootHeight))
 		if res == "ok" && sr != nil {
 			ec.oracleImplicated("ValidateByzantineEvidence", claim, op)
 		}
@@ -650,10 +655,131 @@ func runEvidenceCase(o *drv.Out, ci int, wired bool) {
 			fail(o, "C14:validate-panic", "ValidateByzantineEvidence panicked", map[string]any{"op": op, "history": tail(ec.hist, 30)})
 		}
 	}
+	// … time passes: the root chain (and the replica's root height) moves on by more than the unstaking period;
+	// everything accepted before is expired now and must be refused …
+	if len(accepted) > 0 && r.Intn(2) == 0 {
+		if wired {
+			n := int(ec.unstaking) + int(rhs[3]-rhs[0]) + 1
+			for i := 0; i < n; i++ {
+				root.endBlock()
+			}
+			ec.curRoot = root.sm.Height()
+		} else {
+			ec.curRoot += ec.unstaking + (rhs[3] - rhs[0]) + 1
+		}
+		ec.b.RootHeight = ec.curRoot
+		ec.c.mins = map[uint64]uint64{}
+		if wired {
+			ec.c.LoadMinimumEvidenceHeight(0, ec.curRoot)
+		} else {
+			ec.c.mins[ec.curRoot] = ec.curRoot - ec.unstaking
+		}
+		ec.op(ec.c.envLine(net, chain, ec.b.RootHeight), "ok")
+		for _, e := range accepted {
+			if ds := ec.process([]ev{e}, "aged"); len(ds) > 0 {
+				o.Count("aged:accepted")
+			} else {
+				o.Count("aged:refused")
+			}
+		}
+		// a proposer's list resting on the aged evidence
+		e := accepted[r.Intn(len(accepted))]
+		var ids []*lib.DoubleSigner
+		for v := range ec.byz {
+			ids = append(ids, &lib.DoubleSigner{Id: v.pub, Heights: []uint64{e.a.qc.Header.RootHeight}})
+			break
+		}
+		op := fmt.Sprintf("validate slash=%s be=%s", dsListStr(ids), evsDesc([]ev{e}))
+		res := guard(func() string {
+			if err := ec.b.ValidateByzantineEvidence(&lib.SlashRecipients{DoubleSigners: ids}, &bft.ByzantineEvidence{DSE: bft.NewDSE(evsReal([]ev{e}))}); err != nil {
+				return eid(err)
+			}
+			return "ok"
+		})
+		ec.op(op, res)
+		o.Count("validate:aged:" + strings.SplitN(res, "/", 2)[0])
+		if res == "ok" {
+			ec.oracleImplicated("ValidateByzantineEvidence", ids, op)
+		}
+		o.Count("scenario:time-passes")
+	}
+
 	o.Hist["process:already-slashed-filtered"] += ec.c.nFiltered
 	if ci == 0 {
 		o.Sample(fmt.Sprintf("%d certificates, %d accepted evidence pairs, byzantine=%d", len(ec.certs), len(accepted), nbyz))
 	}
+}
+
+// runCorpusExpired: root chain (a real state machine) at height 10 with unstaking period 3, so the minimum
+// evidence height is 7; a real-BLS equivocation at root height 6 and one at root height 1 must be refused as too
+// old by the replica at root height 10 (before c09f5c7 both were accepted: the bound was asked as of the evidence's
+// own root height, 6-3 and 0); the same equivocation at root height 8 is the positive control.
+func runCorpusExpired(o *drv.Out) {
+	o.Case("corpus-expired-6-at-10")
+	var gvs []genVal
+	for _, v := range vals[:4] {
+		gvs = append(gvs, genVal{v, 1000000, []uint64{1}})
+	}
+	root, err := newChain(gvs, true, 15, 10, 3)
+	if err != nil {
+		panic(err)
+	}
+	defer root.close()
+	for root.sm.Height() < 10 {
+		root.endBlock()
+	}
+	ec := &evCase{o: o, w: &world{signed: map[string]map[string]map[string]bool{}}, byz: map[*val]bool{vals[0]: true}, wired: true, curRoot: root.sm.Height(), unstaking: 3}
+	ec.c = &ctrl{committees: map[uint64]*committee{}, mins: map[uint64]uint64{}, slashed: map[string]bool{}, minFn: root.minEvidenceAt}
+	com := newCommittee(vals[:4], []uint64{10, 10, 10, 10})
+	for _, rh := range []uint64{1, 6, 8} {
+		ec.c.committees[rh] = com
+	}
+	conf := lib.DefaultConfig()
+	conf.NetworkID, conf.ChainId = net, chain
+	b, e := bft.New(conf, vals[1].priv, ec.curRoot, 50, ec.c, false, nil, fsmutil.QuietLogger())
+	if e != nil {
+		panic(e)
+	}
+	ec.b = b
+	for _, h := range []uint64{10, 6, 1, 8} {
+		ec.c.LoadMinimumEvidenceHeight(0, h)
+		m, _ := root.minEvidenceAt(h)
+		ec.op(fmt.Sprintf("wiredmin cur=%d ub=%d h=%d", ec.curRoot, ec.unstaking, h), fmt.Sprint(m))
+	}
+	ec.op(ec.c.envLine(net, chain, ec.b.RootHeight), "ok")
+	for _, rh := range []uint64{6, 1, 8} {
+		view := &lib.View{Height: 50, Round: 0, Phase: lib.Phase_PRECOMMIT_VOTE, RootHeight: rh, NetworkId: net, ChainId: chain}
+		var pair []*cert
+		for i, signers := range [][]int{{0, 1, 2}, {0, 3}} {
+			q := &lib.QuorumCertificate{Header: view.Copy(), BlockHash: h32(fmt.Sprintf("corpus-block-%d", i)), ResultsHash: h32("corpus-results")}
+			sig, parts := aggregate(ec.w, com, signers, q)
+			q.Signature = sig
+			pair = append(pair, ec.addCert(&cert{qc: q, com: com, parts: parts, sigLenOK: true, tag: "corpus"}))
+		}
+		x := ev{a: pair[0], b: pair[1]}
+		ds := ec.process([]ev{x}, fmt.Sprintf("corpus-root-height-%d", rh))
+		claim := []*lib.DoubleSigner{{Id: vals[0].pub, Heights: []uint64{rh}}}
+		op := fmt.Sprintf("validate slash=%s be=%s", dsListStr(claim), evsDesc([]ev{x}))
+		res := guard(func() string {
+			if err := ec.b.ValidateByzantineEvidence(&lib.SlashRecipients{DoubleSigners: claim}, &bft.ByzantineEvidence{DSE: bft.NewDSE(evsReal([]ev{x}))}); err != nil {
+				return eid(err)
+			}
+			return "ok"
+		})
+		ec.op(op, res)
+		if res == "ok" {
+			ec.oracleImplicated("ValidateByzantineEvidence", claim, op)
+		}
+		switch {
+		case rh < 7 && len(ds) == 0 && res != "ok":
+			o.Count("corpus:expired-evidence-refused")
+		case rh >= 7 && len(ds) == 1 && res == "ok":
+			o.Count("corpus:fresh-evidence-accepted")
+		case rh >= 7:
+			fail(o, "C14:corpus-fresh-evidence-refused", fmt.Sprintf("the positive control at root height %d was not accepted", rh), map[string]any{"history": ec.hist})
+		}
+	}
+	o.Sample("corpus-expired-6-at-10: " + strings.Join(tail(ec.hist, 2), " ;; "))
 }
 
 func headerRoot(c *cert) uint64 {
